@@ -452,12 +452,20 @@ func (c *compiler) evalIdentifier(node *ast.Identifier) (interface{}, error) {
 }
 
 func (c *compiler) evalInfixExpression(node *ast.InfixExpression) (interface{}, error) {
+	// an unknown identifier counts as nil for '==', '!=', and logical
+	// operators; every other operand error fails the expression
+	tolerated := func(err error) bool {
+		if _, ok := err.(*ErrUnknownIdentifier); !ok {
+			return false
+		}
+		return node.Operator == "==" || node.Operator == "!=" ||
+			node.Operator == "||" || node.Operator == "&&"
+	}
+
 	lres, err := c.evalExpression(node.Left)
-	if err != nil &&
-		node.Operator != "==" && node.Operator != "!=" &&
-		node.Operator != "||" && node.Operator != "&&" {
+	if err != nil && !tolerated(err) {
 		return nil, err
-	} // nil lres is acceptable only for '==', '!=', and logical operators
+	}
 
 	switch { // fast return
 	case node.Operator == "&&" && !c.isTruthy(lres):
@@ -467,11 +475,9 @@ func (c *compiler) evalInfixExpression(node *ast.InfixExpression) (interface{}, 
 	}
 
 	rres, err := c.evalExpression(node.Right)
-	if err != nil &&
-		node.Operator != "==" && node.Operator != "!=" &&
-		node.Operator != "||" && node.Operator != "&&" {
+	if err != nil && !tolerated(err) {
 		return nil, err
-	} // nil rres is acceptable only for '==', '!=', and logical operators
+	}
 
 	switch node.Operator {
 	case "&&", "||":
